@@ -276,3 +276,192 @@ Section MasterLoop.
     - inversion H; subst. intros c Hc. exact (mseen_none st Hi Hn c Hc).
   Qed.
 End MasterLoop.
+
+(* ------------------------------------------------------------------ the model's set = the specification's set *)
+Lemma xskip_false : forall o d, xskip o d = false <-> ~ In d (xe_ex o) /\ ~ In d (xe_rids o).
+Proof.
+  intros o d. unfold xskip. rewrite orb_false_iff. rewrite <- !not_true_iff_false, !mem_In. tauto.
+Qed.
+
+Lemma rule_mem0 : forall o d, rule_mem (xe_start o) (xe_rule o) 0 d <-> xrule_inst o d.
+Proof.
+  intros o d. unfold rule_mem, xrule_inst, rule_cand. destruct (xe_rule o) as [rr|].
+  - split.
+    + intros (k & Hk & H). destruct (in_bound (r_bound rr) (xe_start o) (r_period rr) k) eqn:Hb; [|discriminate].
+      inversion H. exists k. repeat split; [lia|exact Hb].
+    + intros (k & Hk & Hb & ->). exists k. split; [lia|]. rewrite Hb. reflexivity.
+  - split; [intros (k & _ & H); discriminate|intros []].
+Qed.
+
+Lemma extras_In : forall o d, In d (xe_extras o) <-> xe_rdate o <> [] /\ (d = xe_start o \/ In d (xe_rdate o)).
+Proof.
+  intros o d. unfold xe_extras. destruct (xe_rdate o) as [|x r].
+  - cbn. split; [intros []|intros [H _]; apply H; reflexivity].
+  - rewrite In_sort_dedup. cbn [In]. split; [intros H; split; [discriminate|]|intros [_ H]]; intuition.
+Qed.
+
+Lemma wf_x_orule : forall o, wf_xevent o -> wf_orule (xe_rule o).
+Proof. intros o (_ & H & _). unfold wf_orule. destruct (xe_rule o); [apply H|exact I]. Qed.
+
+Lemma sinv_init : forall o, sinv (0, xe_extras o).
+Proof.
+  intros o. split; cbn [fst snd]; [lia|]. unfold xe_extras. destruct (xe_rdate o); [exact I|apply sort_dedup_sorted].
+Qed.
+
+Lemma bridge_set : forall o, wf_xevent o -> xe_has_set o = true ->
+    forall c, mseen o (0, xe_extras o) c <-> exists D, xmaster_inst o D /\ c = fcall D (D + xlen o) false.
+Proof.
+  intros o (_ & Hr & _) Hset c. unfold mseen, smem, xmaster_inst. cbn [fst snd].
+  split; intros (d & H1 & H2); exists d.
+  - destruct H2 as [H2 ->]. apply xskip_false in H2. split; [|reflexivity]. split; [|exact H2].
+    destruct H1 as [H1|H1]; [left; apply rule_mem0; exact H1|]. apply extras_In in H1 as [_ [->|H1]]; tauto.
+  - destruct H1 as (H1 & H3). split; [|split; [apply xskip_false; exact H3|exact H2]].
+    rewrite rule_mem0, extras_In. destruct H1 as [H1|[H1|H1]]; [left; exact H1| |].
+    + right. split; [intros E; rewrite E in H1; destruct H1|right; exact H1].
+    + destruct (xe_rdate o) as [|x r] eqn:Erd; [|right; split; [discriminate|left; exact H1]].
+      left. unfold xrule_inst. unfold xe_has_set in Hset. rewrite Erd in Hset.
+      destruct (xe_rule o) as [rr|].
+      * exists 0. destruct Hr as [_ Hb]. split; [lia|split; [exact Hb|lia]].
+      * destruct (Hr eq_refl) as [Hex _]. rewrite Hex in Hset. discriminate.
+Qed.
+
+Lemma bridge_one : forall o, wf_xevent o -> xe_has_set o = false -> forall D, xmaster_inst o D <-> D = xe_start o.
+Proof.
+  intros o (_ & Hr & _) Hset D. unfold xe_has_set in Hset. unfold xmaster_inst, xrule_inst.
+  destruct (xe_rule o) as [rr|]; [discriminate|]. destruct (xe_rdate o) as [|x r]; [|discriminate].
+  destruct (xe_ex o) as [|y q] eqn:Eex; [|discriminate]. destruct (Hr eq_refl) as [_ Hnr].
+  cbn [In]. split; [intros [[[]|[[]|H]] _]; exact H|intros ->; split; [right; right; reflexivity|split; [intros []|exact Hnr]]].
+Qed.
+
+(* ------------------------------------------------------------------ the override components *)
+Definition oseen (o : xevent) (c : call) : Prop := exists v, In v (xe_over o) /\ c = over_call v.
+
+Lemma oseen_map : forall o c, In c (map over_call (xe_over o)) <-> oseen o c.
+Proof.
+  intros o c. rewrite in_map_iff. unfold oseen. split; intros (v & H1 & H2); exists v; [split; [exact H2|symmetry; exact H1]|split; [symmetry; exact H2|exact H1]].
+Qed.
+
+Lemma run_rec_all : forall l st, run_calls rec_all l st = (st ++ l, false).
+Proof.
+  induction l as [|c r IH]; intros st; cbn [run_calls]; [rewrite app_nil_r; reflexivity|].
+  unfold rec_all at 1. rewrite IH, <- app_assoc. reflexivity.
+Qed.
+
+Lemma run_match_over : forall s e l m m' stop,
+    run_calls (match_fn s e) (map over_call l) m = (m', stop) ->
+    (m' = true <-> m = true \/ exists v, In v l /\ overlap s e (over_call v) = true) /\ (stop = true -> m' = true).
+Proof.
+  intros s e. induction l as [|v r IH]; intros m m' stop H; cbn [map run_calls] in H.
+  - inversion H; subst. split; [|discriminate]. split; [left; assumption|intros [Hm|(v & [] & _)]; exact Hm].
+  - unfold match_fn at 1 in H. destruct (overlap s e (over_call v)) eqn:Hov.
+    + inversion H; subst. split; [|reflexivity]. split; [|reflexivity]. intros _. right. exists v. split; [left; reflexivity|exact Hov].
+    + cbn [over_call fcall c_rec negb] in H. rewrite andb_false_r in H.
+      destruct (IH m m' stop H) as [H1 H2]. split; [|exact H2]. rewrite H1. cbn [In].
+      split; (intros [Hm|(w & Hw & Ho)]; [left; exact Hm|right]).
+      * exists w. split; [right; exact Hw|exact Ho].
+      * destruct Hw as [<-|Hw]; [congruence|]. exists w. split; assumption.
+Qed.
+
+(* without infinity_fn the master is the plain loop *)
+Lemma master_noinf : forall {St} (f : call -> St -> St * bool) fuel o st r,
+    xe_has_set o = true -> xvisit_master f no_infinity fuel o st = Some r ->
+    xvisit_set f fuel o (0, xe_extras o) st = Some r.
+Proof.
+  intros St f fuel o st r Hset H. unfold xvisit_master in H. rewrite Hset in H.
+  destruct (xe_infinite o); [|exact H]. destruct (xfirst fuel o (0, xe_extras o)) as [[d0|]|]; [|exact H|discriminate].
+  unfold no_infinity in H. exact H.
+Qed.
+
+Lemma xvisited_split : forall o, wf_xevent o -> forall c,
+    xvisited o c <-> oseen o c \/
+      (if xe_has_set o then mseen o (0, xe_extras o) c else c = fcall (xe_start o) (xe_start o + xlen o) false).
+Proof.
+  intros o Hwf c. unfold xvisited, oseen, over_call. destruct (xe_has_set o) eqn:Hset.
+  - rewrite (bridge_set o Hwf Hset c). tauto.
+  - split.
+    + intros [(D & HD & ->)|H]; [right|left; exact H]. apply (bridge_one o Hwf Hset) in HD. subst. reflexivity.
+    + intros [H|H]; [right; exact H|left]. exists (xe_start o). split; [apply (bridge_one o Hwf Hset); reflexivity|exact H].
+Qed.
+
+(* ================================================================== (a) the visitor hands out exactly the instances *)
+Theorem ext_visit_exact : forall o fuel l stop, wf_xevent o ->
+    xvisit rec_all no_infinity fuel o [] = Some (l, stop) ->
+    stop = false /\ forall c, In c l <-> xvisited o c.
+Proof.
+  intros o fuel l stop Hwf H. pose proof Hwf as (Hev & _ & _). pose proof (wf_x_orule o Hwf) as Hor.
+  unfold xvisit in H. rewrite over_block, run_rec_all in H. cbn [app] in H.
+  destruct (xe_has_set o) eqn:Hset.
+  - apply (master_noinf _ _ _ _ _ Hset) in H.
+    destruct (L_rec o Hev Hor fuel _ _ l stop (sinv_init o) H) as (-> & calls & -> & Hc). split; [reflexivity|].
+    intros c. rewrite (xvisited_split o Hwf c), Hset, in_app_iff, oseen_map, Hc. tauto.
+  - unfold xvisit_master in H. rewrite Hset in H. destruct (xmaster_block o Hev) as [_ Hb]. rewrite Hb, run_rec_all in H.
+    inversion H; subst. split; [reflexivity|]. intros c. rewrite (xvisited_split o Hwf c), Hset, in_app_iff, oseen_map.
+    cbn [In]. intuition.
+Qed.
+
+(* ================================================================== (c) time_range_match *)
+Lemma row_master : forall o, wf_vevent (xe_master o) -> forall s e D,
+    overlap s e (fcall D (D + xlen o) false) = vevent_row (xe_master o) D s e.
+Proof.
+  intros o Hev s e D. rewrite <- (rows_vevent (xe_master o) Hev s e D). destruct (xmaster_block o Hev) as [_ Hb]. rewrite Hb.
+  unfold ov. cbn [existsb]. rewrite orb_false_r. reflexivity.
+Qed.
+
+Lemma row_over : forall v s e, ov_start v < ov_end v ->
+    overlap s e (over_call v) = vevent_row (over_ev v) (ov_start v) s e.
+Proof.
+  intros v s e Hlt. assert (Hev : wf_vevent (over_ev v)) by (split; [exact I|cbn; exact Hlt]).
+  rewrite <- (rows_vevent (over_ev v) Hev s e (ov_start v)). unfold vevent_calls, over_ev. cbn [ev_end ev_start].
+  replace (ov_start v + (ov_end v - ov_start v)) with (ov_end v) by lia.
+  unfold ov, over_call, overlap, fcall. cbn [existsb c_s c_e]. rewrite orb_false_r. reflexivity.
+Qed.
+
+Theorem ext_match_visited : forall o r fuel b, wf_xevent o -> tr_bounded r = true ->
+    xtime_range_match fuel o r = Some b ->
+    (b = true <-> exists c, xvisited o c /\ overlap (tr_start r) (tr_end r) c = true).
+Proof.
+  intros o r fuel b Hwf Hb H. pose proof Hwf as (Hev & _ & _). pose proof (wf_x_orule o Hwf) as Hor.
+  unfold xtime_range_match in H. rewrite Hb in H. cbn [negb] in H.
+  set (s := tr_start r) in *. set (e := tr_end r) in *. unfold xvisit in H. rewrite over_block in H.
+  destruct (run_calls (match_fn s e) (map over_call (xe_over o)) false) as [m1 stop1] eqn:Ho.
+  destruct (run_match_over s e _ _ _ _ Ho) as [Hm1 Hst1].
+  assert (Hov : m1 = true <-> exists c, oseen o c /\ overlap s e c = true).
+  { rewrite Hm1. split.
+    - intros [?|(v & Hv & Hx)]; [discriminate|]. exists (over_call v). split; [exists v; split; [exact Hv|reflexivity]|exact Hx].
+    - intros (c & (v & Hv & ->) & Hx). right. exists v. split; assumption. }
+  destruct stop1.
+  - cbn in H. inversion H; subst b. rewrite (Hst1 eq_refl). split; [intros _|reflexivity].
+    apply Hov in Hst1; [|reflexivity]. destruct Hst1 as (c & Hc & Hx). exists c. split; [|exact Hx].
+    apply (xvisited_split o Hwf). left. exact Hc.
+  - destruct (xvisit_master (match_fn s e) no_infinity fuel o m1) as [[m' stop']|] eqn:Hm; [|discriminate].
+    cbn in H. inversion H; subst b. clear H.
+    assert (Hmast : m' = true <-> m1 = true \/ exists c,
+               (if xe_has_set o then mseen o (0, xe_extras o) c else c = fcall (xe_start o) (xe_start o + xlen o) false)
+               /\ overlap s e c = true).
+    { destruct (xe_has_set o) eqn:Hset.
+      - apply (master_noinf _ _ _ _ _ Hset) in Hm. exact (L_match o Hev Hor s e fuel _ m1 m' stop' (sinv_init o) Hm).
+      - unfold xvisit_master in Hm. rewrite Hset in Hm. destruct (xmaster_block o Hev) as [_ Hbk]. rewrite Hbk, run_calls_single in Hm.
+        unfold match_fn in Hm. destruct (overlap s e (fcall (xe_start o) (xe_start o + xlen o) false)) eqn:Hx.
+        + inversion Hm; subst. split; [|reflexivity]. intros _. right. eexists. split; [reflexivity|exact Hx].
+        + assert (m' = m1) by (destruct (xlt e (c_s (fcall (xe_start o) (xe_start o + xlen o) false)) && negb (c_rec (fcall (xe_start o) (xe_start o + xlen o) false))); inversion Hm; reflexivity).
+          subst m'. split; [left; assumption|]. intros [?|(c & -> & Hc)]; [assumption|congruence]. }
+    rewrite Hmast, Hov. split.
+    + intros [(c & Hc & Hx)|(c & Hc & Hx)]; exists c; (split; [apply (xvisited_split o Hwf)|exact Hx]); [left|right]; exact Hc.
+    + intros (c & Hc & Hx). apply (xvisited_split o Hwf) in Hc as [Hc|Hc]; [left|right]; exists c; split; assumption.
+Qed.
+
+Theorem ext_match_rfc : forall o r fuel b, wf_xevent o -> tr_bounded r = true ->
+    xtime_range_match fuel o r = Some b -> (b = true <-> xrfc_overlaps o r).
+Proof.
+  intros o r fuel b Hwf Hb H. rewrite (ext_match_visited o r fuel b Hwf Hb H).
+  pose proof Hwf as (Hev & _ & Hovr). unfold xvisited, xrfc_overlaps. split.
+  - intros (c & [(D & HD & ->)|(v & Hv & ->)] & Hx).
+    + left. exists D. split; [exact HD|]. rewrite <- (row_master o Hev). exact Hx.
+    + right. exists v. split; [exact Hv|]. rewrite <- (row_over v _ _ (Hovr v Hv)). exact Hx.
+  - intros [(D & HD & Hx)|(v & Hv & Hx)].
+    + exists (fcall D (D + xlen o) false). split; [left; exists D; split; [exact HD|reflexivity]|]. rewrite (row_master o Hev). exact Hx.
+    + exists (over_call v). split; [right; exists v; split; [exact Hv|reflexivity]|]. rewrite (row_over v _ _ (Hovr v Hv)). exact Hx.
+Qed.
+
+Theorem ext_unbounded_range : forall o fuel, xtime_range_match fuel o (None, None) = Some false.
+Proof. reflexivity. Qed.
